@@ -127,6 +127,22 @@ class Run:
                         % (name, err, outpath))
         return st
 
+    def apalache(self, module, args, name, timeout=300):
+        """Run apalache-mc check on spec/<module>.tla; returns True when it reports no error, False on a counterexample."""
+        out = os.path.join(self.dir, name + ".apalache.out")
+        wd = os.path.join(self.dir, "apalache-" + name)
+        os.makedirs(wd, exist_ok=True)
+        cmd = ["timeout", str(timeout), "apalache-mc", "check", "--out-dir=" + wd] + list(args) + [os.path.join(self.specdir, module + ".tla")]
+        with open(out, "w") as f:
+            rc = subprocess.call(cmd, cwd=wd, stdout=f, stderr=subprocess.STDOUT)
+        txt = open(out, errors="replace").read()
+        shutil.rmtree(wd, ignore_errors=True)
+        if "EXITCODE: OK" in txt:
+            return True
+        if "EXITCODE: ERROR (12)" in txt or "Found a violation" in txt or "invariant" in txt.lower() and "violat" in txt.lower():
+            return False
+        raise Infra("apalache failed on %s %s (rc %s): %s" % (module, args, rc, txt[-800:]))
+
     def tlc_many(self, jobs, parallel=8):
         """Run several TLC jobs (dicts of keyword arguments for tlc()) concurrently; returns their stats in order.
         Generator-heavy specs evaluate their constant definitions once per worker, so few workers per process and
